@@ -584,6 +584,10 @@ var rejSamples = []rejSpec{
 	{code: 503, hdr: []byte("Retry-After: 1\r\nX-A: b\r\n"), reason: "later, with a longer explanation text"},
 	{code: 299, reason: "odd status"},
 	{code: 1000, reason: "four digits"},
+	{code: 403, reason: "denied\n"},
+	{plain: true, reason: "boom\r\n"},
+	{code: 418, reason: " spaced out \t"},
+	{code: 403, hdr: []byte("X-Why: policy\r\n"), reason: "caf\xc3\xa9\n\nsecond paragraph\r\n\r\n"},
 }
 
 func randRej(c *ctx) rejSpec { return rejSamples[c.rng.Intn(len(rejSamples))] }
